@@ -1373,3 +1373,53 @@ def unoption_pred(f):
     if n:
         f.rewrites.append(('R6', f'{n}x Option predicate/alternative combinator with a closure -> match (closure body verbatim)', ''))
     return f
+
+
+def unfilter_map_collect_set(f):
+    """R6: `let NAME: [hashbrown::]HashSet<T> = SRC.iter().filter_map(|P| BODY).collect();` (BODY an expression of type Option<T> without `?`/`return`)
+    -> `let mut NAME: HashSet<T> = HashSet::new(); for i in 0..SRC.len() { let P = &SRC[i]; match BODY { Some(x_) => { NAME.insert(x_); } None => {} } }`"""
+    n = 0
+    while True:
+        m = re.search(r'let (\w+): (?:hashbrown::|std::collections::)?HashSet<([^>]+)> = ([\w.\s]+?)\s*\.\s*iter\(\)\s*\.\s*filter_map(\()', f.body)
+        if not m:
+            break
+        try:
+            params, cbody, close = _closure_after(f.body, m.start(4))
+        except ExtractError:
+            break
+        m2 = re.match(r'\s*\.\s*collect\(\)\s*;', f.body[close + 1:])
+        if not m2 or re.search(r'\?|\breturn\b', cbody):
+            break
+        name, ty, src = m.group(1), m.group(2), ''.join(m.group(3).split())
+        if cbody.startswith('{') and match_brace(cbody, 0) == len(cbody) - 1 and ';' not in cbody:
+            cbody = cbody[1:-1].strip()
+        k = f'fs{n}_'
+        bind = f'let {params[1:].strip()} = {src}[{k}];' if params.startswith('&') else f'let {params} = &{src}[{k}];'
+        code = (f'let mut {name}: HashSet<{ty}> = HashSet::new(); for {k} in 0..{src}.len() {{ {bind} '
+                f'match ({cbody}) {{ Some(x_) => {{ {name}.insert(x_); }} None => {{}} }} }}')
+        f.body = f.body[:m.start()] + code + f.body[close + 1 + m2.end():]
+        n += 1
+    if n:
+        f.rewrites.append(('R6', f'{n}x `let s: HashSet<T> = v.iter().filter_map(|p| BODY).collect();` -> loop inserting the `Some` results (BODY verbatim)', ''))
+    return f
+
+
+def unoption_filter(f):
+    """R6: `OPT.as_ref().filter(|w| P)` -> `(match OPT.as_ref() { Some(w) => if P { Some(w) } else { None }, None => None })`  (P verbatim)"""
+    n = 0
+    while True:
+        m = re.search(r'\.\s*as_ref\(\)\s*\.\s*filter(\()', f.body)
+        if not m:
+            break
+        close = match_brace(f.body, m.start(1))
+        mi = re.match(r'\s*\|\s*(\w+)\s*\|\s*(.*)$', f.body[m.start(1) + 1:close], flags=re.S)
+        st = _receiver_start(f.body, m.start())
+        if not mi or st < 0:
+            break
+        recv = f.body[st:m.start()].strip()
+        w = mi.group(1)
+        f.body = f.body[:st] + f'(match {recv}.as_ref() {{ Some({w}) => {{ let {w} = &{w}; if {mi.group(2).strip().rstrip(",").strip()} {{ Some(*{w}) }} else {{ None }} }}, None => None }})' + f.body[close + 1:]
+        n += 1
+    if n:
+        f.rewrites.append(('R6', f'{n}x `opt.as_ref().filter(|w| P)` -> match (P verbatim; the closure sees a reference to the item)', ''))
+    return f
